@@ -1712,7 +1712,6 @@ func c06CLI(c *Ctx) {
 	}
 }
 
-
 // isFieldsGetter: a method of netsample.Sample whose every return is s.fields[<its one parameter>].
 func isFieldsGetter(fn *ssa.Function) bool {
 	if fn == nil || len(fn.Blocks) == 0 || len(fn.Params) != 2 || fn.Signature.Recv() == nil {
